@@ -200,11 +200,11 @@ let () =
              let l = show_result (lua_run fe e st) in
              (* number of choice points met when every choice is 0, as an upper bound on the depth needed *)
              let zeros = List.init 64 (fun _ -> O) in
-             let ((_, _), rest) = ceval fe (comp fe e) st zeros in
+             let ((_, _), rest) = ceval fe (comp analyzer_se_policy fe e) st zeros in
              let npicks = 64 - List.length rest in
              let rs =
                if npicks > 8 then [ "?" ]
-               else List.sort_uniq compare (List.map (fun o -> show_result (nelua_run fe e st o)) (oracles 3 npicks)) in
+               else List.sort_uniq compare (List.map (fun o -> show_result (nelua_run analyzer_se_policy fe e st o)) (oracles 3 npicks)) in
              "lua=" ^ l ^ " nelua=" ^ String.concat " " rs
            | _ -> "?unknown")
         with e -> "!exn " ^ Printexc.to_string e
